@@ -240,7 +240,7 @@ class EBB3:
                     if "EBB" in str_version:
                         verified = True
 
-        except serial.SerialException:
+        except (serial.SerialException, IOError, RuntimeError, OSError):
             self.record_error(f"Error testing USB connection (port name: {self.port_name})")
             self.disconnect() # Try to close the port, in case it is open.
 
